@@ -100,13 +100,13 @@ def evaluate(ids, all_checks=False):
 
 def isolated(ids):
     """evaluate in a private copy of the committed+working /verif and a scratch clone of /repo; copy the meta.json files back"""
-    root = "/root/seeded_eval"
+    root = os.environ.get("SEEDED_EVAL_ROOT", "/root/seeded_eval")          # several shards can run side by side under different roots
     sh("rm -rf %s && mkdir -p %s" % (root, root))
     sh("rsync -a --exclude .git %s/ %s/verif/" % (HERE, root))
     sh("git clone -q /repo %s/repo" % root)
     env = dict(os.environ, SEEDED_REPO=root + "/repo", MPILOT_REPO=root + "/repo")
     p = subprocess.run([PY, "-m", "harness.seeded", "eval"] + list(ids), cwd=root + "/verif", env=env)
-    for sid in os.listdir(os.path.join(root, "verif", "seeded")):
+    for sid in (ids or os.listdir(os.path.join(root, "verif", "seeded"))):
         src = os.path.join(root, "verif", "seeded", sid, "meta.json")
         if os.path.exists(src) and os.path.isdir(os.path.join(SEEDED, sid)):
             shutil.copy(src, os.path.join(SEEDED, sid, "meta.json"))
